@@ -228,25 +228,68 @@ func (s *sessionController) updateBinders() {
 	s.pskExtension.PatchBuiltHello(s.uconnRef.HandshakeState.Hello)
 }
 
-func (s *sessionController) overrideExtension(extension Initializable, override func(), initializedState sessionControllerState) error {
+func (s *sessionController) overrideExtension(extension Initializable, override func() error, initializedState sessionControllerState) error {
 	panicOnNil("overrideExtension", extension)
 	s.assertNotLocked("overrideExtension")
 	s.assertControllerState("overrideExtension", NoSession)
-	override()
+	if err := override(); err != nil {
+		return err
+	}
 	if extension.IsInitialized() {
 		s.state = initializedState
 	}
 	return nil
 }
 
+// replaceAppliedExt keeps an extension list that has already been applied (ApplyPreset,
+// BuildHandshakeStateWithoutSession) in sync with a session extension provided by the user
+// afterwards: the extension of the same kind is replaced, as syncSessionExts does when the
+// preset is applied after the override. It returns false if the applied list has no such extension.
+func (s *sessionController) replaceAppliedExt(isSameKind func(TLSExtension) bool, extension TLSExtension) bool {
+	if len(s.uconnRef.Extensions) == 0 {
+		return true // nothing applied yet, syncSessionExts will take care of it
+	}
+	found := false
+	for i, e := range s.uconnRef.Extensions {
+		if isSameKind(e) {
+			s.uconnRef.Extensions[i] = extension
+			found = true
+		}
+	}
+	return found
+}
+
 // overridePskExt allows the user of utls to customize the psk extension.
 func (s *sessionController) overridePskExt(pskExt PreSharedKeyExtension) error {
-	return s.overrideExtension(pskExt, func() { s.pskExtension = pskExt }, PskExtInitialized)
+	return s.overrideExtension(pskExt, func() error {
+		isPsk := func(e TLSExtension) bool { _, ok := e.(PreSharedKeyExtension); return ok }
+		if !s.replaceAppliedExt(isPsk, pskExt) {
+			if pskExt.IsInitialized() {
+				return errors.New("tls: overrideExtension failed: the user provided a psk, but the specification doesn't contain one")
+			}
+			return nil
+		}
+		s.pskExtension = pskExt
+		if len(s.uconnRef.Extensions) != 0 {
+			s.pskExtension.SetOmitEmptyPsk(s.uconnRef.config.OmitEmptyPsk)
+		}
+		return nil
+	}, PskExtInitialized)
 }
 
 // overridePskExt allows the user of utls to customize the session ticket extension.
 func (s *sessionController) overrideSessionTicketExt(sessionTicketExt ISessionTicketExtension) error {
-	return s.overrideExtension(sessionTicketExt, func() { s.sessionTicketExt = sessionTicketExt }, SessionTicketExtInitialized)
+	return s.overrideExtension(sessionTicketExt, func() error {
+		isTicket := func(e TLSExtension) bool { _, ok := e.(ISessionTicketExtension); return ok }
+		if !s.replaceAppliedExt(isTicket, sessionTicketExt) {
+			if sessionTicketExt.IsInitialized() {
+				return errors.New("tls: overrideExtension failed: the user provided a session ticket, but the specification doesn't contain one")
+			}
+			return nil
+		}
+		s.sessionTicketExt = sessionTicketExt
+		return nil
+	}, SessionTicketExtInitialized)
 }
 
 // syncSessionExts synchronizes the sessionController with the session-related
